@@ -10,10 +10,11 @@
      ASnap r       reader, prepareSeekMemSnapshot: under the read lock take the matching entries and capture s.ps
      ARead         reader, performSeek: Seek on the captured handle (tempstore: its immutable maps + X now; or X now)
                    merged with the snapshot
+     AGc r g       SeekGC of the base store X (atomic in X, only between two Persists)
    Any list of actions is an interleaving (an action that is not enabled is a no-op), so a statement for all
    action lists is a statement for all schedules of one reader, any number of writers and the Persist thread.
    Readers do not change the store, so one observed reader is enough. *)
-From NG Require Import Common.Tactics Store.Bytes Store.Model Store.Spec Store.MapLemmas Store.MergeProof Store.Refine.
+From NG Require Import Common.Tactics Store.Bytes Store.Model Store.Spec Store.MapLemmas Store.MergeProof Store.Refine Store.GcProof.
 Open Scope N_scope.
 
 Inductive handle := HLower | HTemp (t : lmap).
@@ -27,7 +28,10 @@ Record cstate := {
   rans : option kvs                         (* reader after ARead *)
 }.
 
-Inductive action := AWrite (b : lmap) | ASwap | ALowerWrite | AUnswap | ASnap (r : range) | ARead.
+Inductive action := AWrite (b : lmap) | ASwap | ALowerWrite | AUnswap | ASnap (r : range) | ARead
+  | AGc (r : range) (g : gcfun).
+  (* AGc: X.SeekGC, one write transaction of the base store (Bolt Update / LevelDB transaction / MemoryStore under its
+     write lock).  Enabled only while no Persist is in flight: Blockchain runs persist and GC in one goroutine. *)
 
 Definition handle_seek (bk : backend) (h : handle) (r : range) (x : kvs) : kvs :=
   match h with
@@ -72,6 +76,13 @@ Definition cstep (c : cstate) (a : action) : cstate :=
              rans := Some (layer_seek false r w (Some (handle_seek (cbk c) h r (cx c)))) |}
       | _, _ => c
       end
+  | AGc r g =>
+      match ctemp c with
+      | None =>
+          {| cbk := cbk c; cm := cm c; ctemp := None; cx := base_seekgc (cbk c) (gkeep g) (gstop g) r (cx c);
+             rsnap := rsnap c; rans := rans c |}
+      | Some _ => c
+      end
   end.
 
 Definition crun (c : cstate) (tr : list action) : cstate := fold_left cstep tr c.
@@ -95,7 +106,9 @@ Definition batch_ok (a : action) : Prop :=
 
 Lemma cstep_wf c a : cwf c -> batch_ok a -> cwf (cstep c a).
 Proof.
-  intros (Sm & Km & Sx & Kx & Ht & Hr) Ha. destruct a as [b| | | |r|]; simpl.
+  intros (Sm & Km & Sx & Kx & Ht & Hr) Ha. destruct a as [b| | | |r| |r' g]; simpl.
+  7:{ destruct (ctemp c) as [[t w]|] eqn:Et; [repeat split; auto; rewrite Et; auto|].
+      repeat split; simpl; auto; unfold base_seekgc; auto using sorted_remove_all, keys_ok_remove_all. }
   - destruct Ha as [Sb Kb]. repeat split; simpl; auto using sorted_copy_into, keys_ok_copy_into.
   - destruct (ctemp c) as [[t w]|] eqn:Et; [repeat split; auto; rewrite Et; auto|].
     destruct (cm c) as [|e m] eqn:Em; [repeat split; auto; rewrite ?Et, ?Em; auto|].
@@ -117,10 +130,12 @@ Qed.
 Theorem persist_regions_preserve_flat c a : cwf c ->
   match a with
   | AWrite b => sorted false b -> cflat (cstep c a) = apply_writes b (cflat c)
+  | AGc r g => ctemp c = None -> cflat (cstep c a) = apply_writes (cm c) (base_seekgc (cbk c) (gkeep g) (gstop g) r (cx c))
   | _ => cflat (cstep c a) = cflat c
   end.
 Proof.
-  intros (Sm & Km & Sx & Kx & Ht & Hr). destruct a as [b| | | |r|]; simpl.
+  intros (Sm & Km & Sx & Kx & Ht & Hr). destruct a as [b| | | |r| |r' g]; simpl.
+  7:{ intros Et. unfold cflat. simpl. rewrite Et. reflexivity. }
   - intros Sb. unfold cflat. simpl.
     assert (Sl : sorted false (match ctemp c with Some (t, _) => apply_writes t (cx c) | None => cx c end)).
     { destruct (ctemp c) as [[t w]|]; auto. destruct Ht as (St & _). now apply sorted_apply_writes. }
@@ -153,7 +168,7 @@ Definition handle_ok (c : cstate) : Prop :=
   end.
 
 Definition no_swap_or_reader (a : action) : Prop :=
-  match a with ASwap | ASnap _ | ARead => False | _ => True end.
+  match a with ASwap | ASnap _ | ARead | AGc _ _ => False | _ => True end.
 
 Lemma handle_seek_rq bk h r x : range_ok r -> sorted false x -> keys_ok x ->
   match h with HTemp t => sorted false t | HLower => True end ->
@@ -194,7 +209,7 @@ Proof.
   rewrite (view_spec _ _ _ _ Hc' Es' Hr), (view_spec _ _ _ _ Hc Es Hr).
   unfold handle_ok in *. rewrite Es' in *. rewrite Es in Hh.
   destruct Hc as (Sm & Km & Sx & Kx & Ht & Hs). rewrite Es in Hs. destruct Hs as (Sw & Kw & Hhs).
-  destruct a as [b| | | |r0|]; simpl in Ha; try contradiction; simpl.
+  destruct a as [b| | | |r0| |r0 g0]; simpl in Ha; try contradiction; simpl.
   - split; auto.
   - (* the write below *)
     destruct (ctemp c) as [[t [|]]|] eqn:Et; simpl; try (rewrite ?Et; split; auto; fail).
@@ -256,10 +271,12 @@ Proof.
       + destruct (ctemp c0); auto. destruct (cm c0); auto.
       + destruct (ctemp c0) as [[t [|]]|]; auto.
       + destruct (ctemp c0) as [[t [|]]|]; auto.
+      + destruct (ctemp c0); auto.
     - destruct a; simpl; auto; try contradiction.
       + destruct (ctemp c0); auto. destruct (cm c0); auto.
       + destruct (ctemp c0) as [[t [|]]|]; auto.
-      + destruct (ctemp c0) as [[t [|]]|]; auto. }
+      + destruct (ctemp c0) as [[t [|]]|]; auto.
+      + destruct (ctemp c0); auto. }
   destruct Hs1 as [Hs1 Ha1].
   rewrite crun_app. fold c1. change (ASnap r :: mid ++ [ARead]) with ([ASnap r] ++ mid ++ [ARead]).
   rewrite crun_app, crun_app.
